@@ -28,20 +28,28 @@ NOMUT_EXCEPTIONS = {
 }
 
 
-def operator_methods(repo):
+_BIN = ("add", "sub", "mul", "matmul", "truediv", "floordiv", "mod", "divmod", "pow", "lshift", "rshift", "and", "xor", "or")
+ALL_OPERATOR_DUNDERS = tuple("__%s%s__" % (p, b) for b in _BIN for p in ("", "r", "i")) + \
+    ("__neg__", "__pos__", "__abs__", "__invert__", "__le__", "__lt__", "__ge__", "__gt__", "__eq__", "__ne__")
+
+
+def operator_methods(repo, every=False):
+    """Operator methods of the DSL classes: the documented ones, or (every=True) every arithmetic / in-place / comparison special method defined."""
     out = []
     for c in DSL:
         cls = repo.cls(c)
-        for o in OPS:
-            if o in cls.methods:
+        for o in (ALL_OPERATOR_DUNDERS if every else OPS):
+            if o in cls.methods and cls.methods[o] not in out:
                 out.append(cls.methods[o])
     return out
 
 
 # ---------------------------------------------------------------------------------------------------
-def r_nomut(ctx):
+def r_nomut(ctx, operands_only=False):
+    """operands_only: report only writes that reach an operand (self / a parameter / an alias of one) -- the part of the rule the module-level
+    null objects shared by all models depend on."""
     repo = ctx.repo
-    roots = operator_methods(repo)
+    roots = operator_methods(repo, every=True)
     dmod = repo.module("PEPit/tools/dict_operations.py")
     helpers = list(dmod.functions.values())
     ctx.count("operator methods", len(roots))
@@ -94,6 +102,8 @@ def r_nomut(ctx):
             continue
         if key in NOMUT_EXCEPTIONS and norm_stmt(common.stmt_of(w.node)) == NOMUT_EXCEPTIONS[key][0]:
             ctx.ob("R-NOMUT", key, True, "recorded exception: " + NOMUT_EXCEPTIONS[key][1], loc(fn, w.node))
+            continue
+        if operands_only and (w.root.startswith("class:") or w.root.startswith("global:")):
             continue
         real += 1
         ctx.ob("R-NOMUT", key, False, "%s (reached through %s)" % (why, " -> ".join(trail)), loc(fn, w.node))
